@@ -441,7 +441,10 @@ func pkgFuncs(repo string) (map[string]*ast.FuncDecl, error) {
 	return out, nil
 }
 
-// callees: names of package-level functions / methods called in fd's body (by bare selector or identifier name).
+// callees: names of package-level functions and of methods of the interpreter called in fd's body. A
+// selector call counts only when its receiver expression is the interpreter itself (`interp`, `n.interp`,
+// `sc.interp`, …): methods of other types that happen to share a name (constraint.Expr.Eval,
+// template.Execute) are not calls into the pipeline.
 func callees(fd *ast.FuncDecl, funcs map[string]*ast.FuncDecl) []string {
 	seen := map[string]bool{}
 	ast.Inspect(fd.Body, func(n ast.Node) bool {
@@ -451,7 +454,11 @@ func callees(fd *ast.FuncDecl, funcs map[string]*ast.FuncDecl) []string {
 			case *ast.Ident:
 				name = f.Name
 			case *ast.SelectorExpr:
-				name = f.Sel.Name
+				if r := src(f.X); r == "interp" || strings.HasSuffix(r, ".interp") {
+					name = f.Sel.Name
+				} else if d, ok := funcs[f.Sel.Name]; ok && d.Recv != nil && !strings.Contains(src(d.Recv.List[0].Type), "Interpreter") {
+					name = f.Sel.Name // method of another type of the package (scope, node, itype …)
+				}
 			}
 			if _, ok := funcs[name]; ok {
 				seen[name] = true
@@ -467,12 +474,15 @@ func callees(fd *ast.FuncDecl, funcs map[string]*ast.FuncDecl) []string {
 	return out
 }
 
+// callsMethod: does fd call the interpreter's method / the package function sel
 func callsMethod(fd *ast.FuncDecl, sel string) bool {
 	found := false
 	ast.Inspect(fd.Body, func(n ast.Node) bool {
 		if c, ok := n.(*ast.CallExpr); ok {
 			if s, ok := c.Fun.(*ast.SelectorExpr); ok && s.Sel.Name == sel {
-				found = true
+				if r := src(s.X); r == "interp" || strings.HasSuffix(r, ".interp") || r == "i" {
+					found = true
+				}
 			}
 			if id, ok := c.Fun.(*ast.Ident); ok && id.Name == sel {
 				found = true
@@ -550,6 +560,30 @@ func main() {
 		} else {
 			bl = append(bl, "(.unsafePointer, 0)")
 		}
+		// representableConst, integer arm, signed kinds: bit-length test (constant.BitLen after the clause) or exact range inside the clause
+		signedRepr := ".other " + common.LeanStr("unrecognised: representableConst")
+		if fd := common.FindFunc(tc, "", "representableConst"); fd != nil {
+			ast.Inspect(fd, func(n ast.Node) bool {
+				cc, ok := n.(*ast.CaseClause)
+				if !ok || len(cc.List) == 0 || src(cc.List[0]) != "reflect.Int" {
+					return true
+				}
+				body := ""
+				for _, st := range cc.Body {
+					body += src(st) + " ; "
+				}
+				switch {
+				case body == "if _, ok := constant.Int64Val(x); !ok { return false } ; ":
+					signedRepr = ".bitLen"
+				case strings.Contains(body, "return -1<<(s-1) <= v && v <= 1<<(s-1)-1") && strings.Contains(body, "s := uint(bitlen[t.Kind()])") &&
+					strings.Contains(body, "v, ok := constant.Int64Val(x)"):
+					signedRepr = ".exactRange"
+				default:
+					signedRepr = ".other " + common.LeanStr(body)
+				}
+				return true
+			})
+		}
 		fmt.Fprintf(&b, `/-- interp/typecheck.go unaryOpPredicates, binaryOpPredicates, bitlen; interp/type.go kind predicates -/
 def opFacts : OpFacts :=
   { unary :=
@@ -560,8 +594,9 @@ def opFacts : OpFacts :=
     [%s],
     predCalls :=
     [%s],
-    bitlen := [%s] }
-`, table(tc, "unaryOpPredicates"), table(tc, "binaryOpPredicates"), strings.Join(pk, ",\n     "), strings.Join(pc, ",\n     "), strings.Join(bl, ", "))
+    bitlen := [%s],
+    signedRepr := %s }
+`, table(tc, "unaryOpPredicates"), table(tc, "binaryOpPredicates"), strings.Join(pk, ",\n     "), strings.Join(pc, ",\n     "), strings.Join(bl, ", "), signedRepr)
 
 		// ---- call sites and guards
 		cl := cfgClauses(cfg)
